@@ -82,6 +82,9 @@ type Plan struct {
 	// BadHeader: the parameter writer sets a header whose value holds a line break: such a request cannot be sent
 	// (net/http's transport refuses it before it dials, and so does the scripted one; a debug dump fails on it). (r7)
 	BadHeader bool `json:"bad_header,omitempty"`
+	// SlowClose: closing an upload source takes 15 ms (a file on a network share): the order in which the client closes
+	// the files and ends the body then shows at the moment Submit returns. (r9)
+	SlowClose bool `json:"slow_close,omitempty"`
 }
 
 type quietLogger struct{}
@@ -104,6 +107,7 @@ func srcError(kind string) error {
 }
 
 type src struct {
+	slow   bool   // see Plan.SlowClose
 	after  string // see Plan.SrcAfter
 	failed bool
 	err    error
@@ -144,7 +148,13 @@ func (s *src) Read(p []byte) (int, error) {
 	s.pos += n
 	return n, nil
 }
-func (s *src) Close() error { atomic.AddInt32(&s.closed, 1); return nil }
+func (s *src) Close() error {
+	if s.slow {
+		time.Sleep(15 * time.Millisecond)
+	}
+	atomic.AddInt32(&s.closed, 1)
+	return nil
+}
 func (s *src) Name() string { return s.name }
 
 type declaredSrc struct{ *src }
@@ -427,7 +437,7 @@ func Check(p Plan) *kit.Violation {
 	}
 
 	mk := func(i, failAt int) *src {
-		return &src{after: p.SrcAfter, err: srcError(p.SrcErr), data: bytes.Repeat([]byte{byte('a' + i)}, p.FileLen), chunk: p.Chunk, failAt: failAt, name: fmt.Sprintf("dir/f%d.bin", i), ct: "application/x-scripted"}
+		return &src{slow: p.SlowClose, after: p.SrcAfter, err: srcError(p.SrcErr), data: bytes.Repeat([]byte{byte('a' + i)}, p.FileLen), chunk: p.Chunk, failAt: failAt, name: fmt.Sprintf("dir/f%d.bin", i), ct: "application/x-scripted"}
 	}
 	op := &rt.ClientOperation{ID: "plan", Method: "POST", PathPattern: "/up"}
 	if p.Method != "" {
@@ -613,6 +623,21 @@ func Check(p Plan) *kit.Violation {
 	elapsed := time.Since(start)
 	if out.panic != nil {
 		return out.panic
+	}
+	// (3a) a call that succeeded after the transport had read the whole upload returns with its files closed already:
+	// the end of the body is what the transport waited for, and the files are closed before the body ends (r9)
+	if out.err == nil && p.RT == "ok" && p.Payload == "multipart" && p.CancelAt == "" {
+		mu.Lock()
+		open := ""
+		for _, s := range files {
+			if atomic.LoadInt32(&s.closed) == 0 {
+				open = s.name
+			}
+		}
+		mu.Unlock()
+		if open != "" {
+			return kit.Failf("FILE-OPEN-AT-RETURN: Submit returned success (the transport had read the whole upload) while upload source %s was still open", open)
+		}
 	}
 	// (1) deadline: generous slack, a hang is >= 30 s or for ever
 	if dl > 0 && elapsed > time.Duration(dl)*time.Millisecond+4*time.Second {
@@ -821,6 +846,7 @@ func Gen(t *rapid.T) Plan {
 		p.CancelOff = rapid.IntRange(0, p.RespLen).Draw(t, "canceloff")
 	}
 	p.URLErr = rapid.IntRange(0, 11).Draw(t, "urlerr") == 0
+	p.SlowClose = p.Payload == "multipart" && rapid.IntRange(0, 5).Draw(t, "slow-close") == 0
 	p.Debug = rapid.IntRange(0, 3).Draw(t, "debug") == 0
 	p.BadHeader = rapid.IntRange(0, 9).Draw(t, "bad-header") == 0
 	p.MissingProd = rapid.IntRange(0, 19).Draw(t, "missingprod") == 0
@@ -960,6 +986,7 @@ func Classify(p Plan) (bool, []string) {
 	add(p.deadlineMs() > 0 && p.CtxMs > p.deadlineMs(), "context deadline later than the request timeout")
 	add(p.MissingProd, "missing producer")
 	add(p.BadHeader, "header value that cannot be sent")
+	add(p.SlowClose && p.NFiles > 0, "upload sources that take time to close")
 	add(p.BadHeader && p.Debug && p.streaming(), "debug mode, streamed payload, request that cannot be dumped")
 	if p.Debug {
 		labels = append(labels, "debug mode")
